@@ -1,15 +1,15 @@
 (* C02 — contractions and structural rearrangements equal their dense definition.
    Property theorems only.  Every order, dimension vector and rank vector; R any commutative ring
-   with involution.  PARTIAL: the value of tensordot is proved for the accumulated matrix of all four
-   modes (C02_contractM: it is the rank-rank matrix every structural case merges), and for the full
-   result in mode 'last-first' (partial and complete contraction).  For the three other modes the
-   assembly of the result cores (merge side, reversal + rank-transposition of the other operand's
-   cores) is modelled in Model/Structure.v and tied to the code by the correspondence, and its
-   ingredients are proved (C02_rank_transpose, C02_concatenate, C02_rank_tensordot); the composed
-   statements are kept as [tensordot_*_full : Prop] below, not proved. *)
+   with involution.  The value of tensordot is proved for the accumulated matrix of all four modes (C02_contractM: it is the
+   rank-rank matrix every structural case merges) and for the full result of all four modes when fewer axes are contracted
+   than self has cores (C02_tensordot_last_first / _last_last / _first_last / _first_first; the other operand may be
+   contracted completely), plus the complete contraction of both operands.
+   PARTIAL: the branch "self contracted completely, other longer" (num_axes = order of self < order of other) of the four
+   modes is modelled in Model/Structure.v and tied to the code by the correspondence; its ingredients are proved
+   (C02_contractM, C02_rank_transpose, C02_concatenate, C02_rank_tensordot), the composed statement is not. *)
 From Coq Require Import ZArith List Lia Arith.
 Import ListNotations.
-Require Import Ring Sums Matrix Core Chain Sweep Structure SweepProof StructProof TensordotProof.
+Require Import Ring Sums Matrix Core Chain Sweep Structure SweepProof StructProof TensordotProof TensordotModes.
 Open Scope cr_scope.
 
 (* the accumulated matrix of tensordot = sum over the row and column indices of the contracted
@@ -45,11 +45,55 @@ Theorem C02_tensordot_complete (R : cring) (ts us : list (core R)) :
 Proof. exact (tensordot_complete_value ts us). Qed.
 Print Assumptions C02_tensordot_complete.
 
-(* NOT PROVED (kept visible): for mode in {last-last, first-last, first-first} the analogous identity
-     chain (tensordot mode k self other) (documented index order) =
-       dsum (contracted dims) (chain self .. * chain other ..)
-   where the uncontracted cores of other appear reversed and rank-transposed in last-last and
-   first-first.  Ingredients proved: C02_contractM (all modes), C02_rank_transpose, C02_concatenate. *)
+(* mode 'last-last': the last k cores of self with the last k cores of other (same order); the remaining cores of other follow
+   reversed and rank-transposed, i.e. their indices appear in reversed order *)
+Theorem C02_tensordot_last_last (R : cring) (pre : list (core R)) c tpart upre upart xp yp x y xq yq i j :
+  tpart <> [] -> length upart = length tpart -> rows upart = rows tpart -> cols upart = cols tpart ->
+  linked (pre ++ c :: tpart) 1%nat -> linked (upre ++ upart) 1%nat ->
+  length xp = length pre -> length yp = length pre -> length xq = length upre -> length yq = length upre ->
+  (pre = [] -> (i < rl c)%nat) -> (j < rl_of (upre ++ upart) 1%nat)%nat ->
+  chain (tensordot LastLast (length tpart) (pre ++ c :: tpart) (upre ++ upart)) (xp ++ x :: rev xq) (yp ++ y :: rev yq) i j =
+  dsum (rows tpart) (cols tpart) (fun zx zy =>
+     chain (pre ++ c :: tpart) (xp ++ x :: zx) (yp ++ y :: zy) i 0%nat *
+     chain (upre ++ upart) (xq ++ zx) (yq ++ zy) j 0%nat).
+Proof.
+  intros H1 H2 H3 H4 H5 H6 H7 H8 H9 H10 H11 H12. rewrite tensordot_ll_unfold by exact H2.
+  exact (tensordot_last_last_value pre c tpart upre upart xp yp x y xq yq i j H1 H2 H3 H4 H5 H6 H7 H8 H9 H10 H11 H12).
+Qed.
+Print Assumptions C02_tensordot_last_last.
+
+(* mode 'first-last': the first k cores of self with the last k cores of other; result = rest of other, then rest of self *)
+Theorem C02_tensordot_first_last (R : cring) (tpart : list (core R)) c post upre upart xq yq x y xp yp j e fin :
+  tpart <> [] -> length upart = length tpart -> rows upart = rows tpart -> cols upart = cols tpart ->
+  linked (tpart ++ c :: post) fin -> rl_of tpart 1%nat = 1%nat -> linked (upre ++ upart) 1%nat ->
+  length xq = length upre -> length yq = length upre ->
+  (j < rl_of (upre ++ upart) 1%nat)%nat ->
+  chain (tensordot FirstLast (length tpart) (tpart ++ c :: post) (upre ++ upart)) (xq ++ x :: xp) (yq ++ y :: yp) j e =
+  dsum (rows tpart) (cols tpart) (fun zx zy =>
+     chain (upre ++ upart) (xq ++ zx) (yq ++ zy) j 0%nat *
+     chain (tpart ++ c :: post) (zx ++ x :: xp) (zy ++ y :: yp) 0%nat e).
+Proof.
+  intros H1 H2 H3 H4 H5 H6 H7 H8 H9 H10. rewrite tensordot_fl_unfold by exact H2.
+  exact (tensordot_first_last_value tpart c post upre upart xq yq x y xp yp j e fin H1 H2 H3 H4 H5 H6 H7 H8 H9 H10).
+Qed.
+Print Assumptions C02_tensordot_first_last.
+
+(* mode 'first-first': the first k cores of self with the first k cores of other; the remaining cores of other come first,
+   reversed and rank-transposed *)
+Theorem C02_tensordot_first_first (R : cring) (tpart : list (core R)) c post upart upost xq yq x y xp yp j e fin finu :
+  tpart <> [] -> length upart = length tpart -> rows upart = rows tpart -> cols upart = cols tpart ->
+  linked (tpart ++ c :: post) fin -> rl_of tpart 1%nat = 1%nat ->
+  linked (upart ++ upost) finu -> rl_of upart 1%nat = 1%nat ->
+  length xq = length upost -> length yq = length upost -> (j < finu)%nat ->
+  chain (tensordot FirstFirst (length tpart) (tpart ++ c :: post) (upart ++ upost)) (rev xq ++ x :: xp) (rev yq ++ y :: yp) j e =
+  dsum (rows tpart) (cols tpart) (fun zx zy =>
+     chain (upart ++ upost) (zx ++ xq) (zy ++ yq) 0%nat j *
+     chain (tpart ++ c :: post) (zx ++ x :: xp) (zy ++ y :: yp) 0%nat e).
+Proof.
+  intros H1 H2 H3 H4 H5 H6 H7 H8 H9 H10 H11. rewrite tensordot_ff_unfold by exact H2.
+  exact (tensordot_first_first_value tpart c post upart upost xq yq x y xp yp j e fin finu H1 H2 H3 H4 H5 H6 H7 H8 H9 H10 H11).
+Qed.
+Print Assumptions C02_tensordot_first_first.
 
 (* rank_transpose: reversed index order, transposed boundary ranks *)
 Theorem C02_rank_transpose (R : cring) (cs : list (core R)) xs ys i j fin :
@@ -111,4 +155,23 @@ Proof. repeat split; simpl; lia. Qed.
 Example ex_tensordot_concrete :
   elem (tensordot LastFirst 1 [exT1; exT2] [exU1; exU2]) [1%nat; 2%nat] [0%nat; 0%nat] =
   dsum [2%nat] [1%nat] (fun zx zy => (elem [exT1; exT2] (1%nat :: zx) (0%nat :: zy) * elem [exU1; exU2] (zx ++ [2%nat]) (zy ++ [0%nat]))).
+Proof. vm_compute. reflexivity. Qed.
+(* the other three modes on the same kind of data: self = [exT1; exT2], other = [exV1; exV2] (mode sizes 3, 2) resp.
+   [exU1; exU2'] (2, 2); both sides evaluated *)
+Definition exV1 : core ZIring := @mkcore ZIring 1 3 1 2 (fun _ x _ b => (Z.of_nat (x + 2 * b), 1%Z)).
+Definition exV2 : core ZIring := @mkcore ZIring 2 2 1 1 (fun a x _ _ => (Z.of_nat (a + 3 * x), (-2)%Z)).
+Example ex_last_last_concrete :
+  map (fun xq => elem (tensordot LastLast 1 [exT1; exT2] [exV1; exV2]) [1%nat; xq] [0%nat; 0%nat]) [0%nat; 1%nat; 2%nat] =
+  map (fun xq => dsum [2%nat] [1%nat] (fun zx zy => (elem [exT1; exT2] (1%nat :: zx) (0%nat :: zy) * elem [exV1; exV2] (xq :: zx) (0%nat :: zy))))
+      [0%nat; 1%nat; 2%nat].
+Proof. vm_compute. reflexivity. Qed.
+Example ex_first_last_concrete :
+  map (fun xq => elem (tensordot FirstLast 1 [exT1; exT2] [exV1; exV2]) [xq; 1%nat] [0%nat; 0%nat]) [0%nat; 1%nat; 2%nat] =
+  map (fun xq => dsum [2%nat] [1%nat] (fun zx zy => (elem [exV1; exV2] (xq :: zx) (0%nat :: zy) * elem [exT1; exT2] (zx ++ [1%nat]) (zy ++ [0%nat]))))
+      [0%nat; 1%nat; 2%nat].
+Proof. vm_compute. reflexivity. Qed.
+Example ex_first_first_concrete :
+  map (fun xq => elem (tensordot FirstFirst 1 [exT1; exT2] [exU1; exU2]) [xq; 1%nat] [0%nat; 0%nat]) [0%nat; 1%nat; 2%nat] =
+  map (fun xq => dsum [2%nat] [1%nat] (fun zx zy => (elem [exU1; exU2] (zx ++ [xq]) (zy ++ [0%nat]) * elem [exT1; exT2] (zx ++ [1%nat]) (zy ++ [0%nat]))))
+      [0%nat; 1%nat; 2%nat].
 Proof. vm_compute. reflexivity. Qed.
